@@ -9,6 +9,9 @@ import (
 
 type modSet struct {
 	all       bool
+	pats      []matcher   // pattern-selected classes (from callee modifies clauses)
+	excepts   [][]string  // for every havoc-all callee: the items it preserves
+	exceptPkg []string
 	classes   map[string]bool
 	allocs    map[*ssa.Alloc]bool
 	allCells  bool
@@ -212,6 +215,8 @@ func (u *Unit) callMods(c *ssa.CallCommon, m *modSet, seen map[*ssa.Function]boo
 	}
 	// dynamic call of a captured closure variable: resolved at execution time; conservatively everything
 	m.all = true
+	m.excepts = append(m.excepts, nil)
+	m.exceptPkg = append(m.exceptPkg, "")
 	m.allCells = false
 	// closures passed as arguments
 	for _, a := range c.Args {
@@ -230,17 +235,12 @@ func (u *Unit) specMods(spec *UnitSpec, m *modSet) {
 	if !spec.ModSet {
 		if !spec.Pure {
 			m.all = true
+			m.excepts = append(m.excepts, spec.Preserves)
+			m.exceptPkg = append(m.exceptPkg, spec.Pkg)
 		}
 		return
 	}
-	for _, it := range spec.Modifies {
-		if strings.HasPrefix(it, "$") {
-			continue
-		}
-		for _, c := range u.resolveModClasses(it, spec.Pkg) {
-			m.classes[c] = true
-		}
-	}
+	m.pats = append(m.pats, itemsMatchers(spec.Modifies, spec.Pkg)...)
 }
 
 func (u *Unit) fnMods(fn *ssa.Function, m *modSet, seen map[*ssa.Function]bool) {
